@@ -29,13 +29,35 @@ let exn_name = function
   | TypeError -> "TypeError" | StopIteration -> "StopIteration"
   | UnicodeDecodeError -> "UnicodeDecodeError" | RecursionError -> "RecursionError"
   | SQLParseError -> "SQLParseError" | NotImplementedError -> "NotImplementedError"
-  | LookupError -> "LookupError"
+  | LookupError -> "LookupError" | Stuck -> "Stuck"
 
 let ttype_str tt = String.concat "." (List.map tcomp_name tt)
 let text_str t = String.concat "," (List.map (fun c -> string_of_int (int_of_n c)) t)
 let parse_text s =
   if s = "" || s = "-" then [] else List.map (fun x -> n_of_int (int_of_string x)) (String.split_on_char ',' s)
 let tok_str (ty, v) = ttype_str ty ^ ":" ^ text_str v
+
+let cls_name = function
+  | CStatement -> "Statement" | CIdentifier -> "Identifier" | CIdentifierList -> "IdentifierList"
+  | CTypedLiteral -> "TypedLiteral" | CParenthesis -> "Parenthesis"
+  | CSquareBrackets -> "SquareBrackets" | CAssignment -> "Assignment" | CIf -> "If"
+  | CFor -> "For" | CComparison -> "Comparison" | CComment -> "Comment" | CWhere -> "Where"
+  | COver -> "Over" | CHaving -> "Having" | CCase -> "Case" | CFunction -> "Function"
+  | CBegin -> "Begin" | COperation -> "Operation" | CValues -> "Values" | CCommand -> "Command"
+  | CTokenList -> "TokenList"
+
+let rec node_str buf = function
+  | Leaf (ty, v) -> Buffer.add_string buf "L"; Buffer.add_string buf (ttype_str ty);
+      Buffer.add_char buf ':'; Buffer.add_string buf (text_str v)
+  | Grp (c, cached, kids) -> Buffer.add_string buf "G"; Buffer.add_string buf (cls_name c);
+      Buffer.add_char buf ':'; Buffer.add_string buf (text_str cached); Buffer.add_char buf '(';
+      List.iteri (fun i k -> if i > 0 then Buffer.add_char buf ';'; node_str buf k) kids;
+      Buffer.add_char buf ')'
+
+let nodes_str ns =
+  let buf = Buffer.create 1024 in
+  List.iteri (fun i n -> if i > 0 then Buffer.add_string buf "||"; node_str buf n) ns;
+  Buffer.contents buf
 
 let split_at n l =
   let rec go n acc l = if n = 0 then (List.rev acc, l) else match l with [] -> (List.rev acc, []) | x :: r -> go (n - 1) (x :: acc) r in
@@ -52,6 +74,11 @@ let handle line =
   | ["splitstream"; t] ->
       (match cur_split_stream (parse_text t) with
        | Ok stmts -> "OK " ^ String.concat "||" (List.map (fun st -> String.concat "|" (List.map tok_str st)) stmts)
+       | Err e -> "ERR " ^ exn_name e)
+  | ["parse"; k; t] ->
+      let r = if k = "all" then cur_parse (parse_text t) else cur_parse_upto (nat_of_int (int_of_string k)) (parse_text t) in
+      (match r with
+       | Ok stmts -> "OK " ^ nodes_str stmts
        | Err e -> "ERR " ^ exn_name e)
   | ["rmatch"; i; pos; t] ->
       let txt = parse_text t in
